@@ -297,6 +297,7 @@ class Env:
         self.noinline = set()
         self.assumptions_used = set()
         self.inlined = set()
+        self.loop_effects = {}
 
     # ----------------------------------------------------------------- registry
     def stub(self, obj, fn=None):
@@ -851,15 +852,32 @@ class Env:
                 it.assign(node.target, item, frame)
         else:
             cont = it.truth(it.eval(node.test, frame))
+        lkey = (con.target, con.__name__, ordinal)
         if not cont:
+            kinds = self.loop_effects.get(lkey)
+            if kinds:
+                # effects of the (cut) iterations are not in the trace of this exit path
+                ctx.trace.append(("loop-havoc", ordinal, tuple(sorted(kinds))))
             it.exec_block(node.orelse, frame)
             return
+        n_trace = len(ctx.trace)
+
+        def note_effects():
+            kinds = {str(e[0]) for e in ctx.trace[n_trace:]}
+            if kinds:
+                self.loop_effects.setdefault(lkey, set()).update(kinds)
+
         try:
             it.exec_block(node.body, frame)
         except BreakEx:
+            note_effects()
             return
         except ContinueEx:
             pass
+        except (RaiseEx, ReturnEx):
+            note_effects()
+            raise
+        note_effects()
         # back edge
         if is_for:
             ctx.ghost[idx_name] = ops.mk_int(seqv.g_advance(ops.int_term(ctx.ghost[idx_name])))
